@@ -47,6 +47,7 @@ DEVS = {
     "FindNextNested": "NoWaitCycle",
     "ProbeForever": "NoHang",
     "HasFileStale": "ExistenceAgrees",
+    "GetInfoNested": "NoWaitCycle",        # seeded/C19-s4: FILES kept while ARCHIVES is looked up in SFileGetFileInfo
     "CloseFileNested": "NoWaitCycle",      # lock-order mutant (selftest/C19/mutant-6.diff): FILES -> ARCH against ARCH -> FILES
 }
 # actions of the as-written machine that start with a lock acquisition (= one verif_sync point each)
@@ -134,6 +135,10 @@ def _sig_fn(trace_recs):
             return s
         if rec.get("canary") is False:
             s["cls"] = "canary"
+            return s
+        if "lockorder" in s["why"]:
+            s["cls"] = "lock_order"          # a lock requested while a lock that must come after it was held
+            s["locks"] = "/".join(x["l"] + ("<" + "+".join(x["held"]) if x["held"] else "") for x in rec.get("locks", []))
             return s
         # bookkeeping over the history: which archive every file / search handle belongs to, what was closed / mutated
         owner, closed, mutated, mut_arch = {}, set(), set(), set()
